@@ -23,7 +23,7 @@
      18 rq q.. (obs: x1 r1 x2 r2 ..  with x = quantile(q), r = rank(x))
    dump = [k; reverse_merge; n; min; max; mean_0; weight_0; ...] (bits; min = max = -2 when n = 0) *)
 From Coq Require Import QArith Qabs.
-From DS Require Import Base.Prelude Model.TDigest.
+From DS Require Import Base.Prelude Model.TDigest Spec.TDigestSpec.
 From DS Require Gen.GenTDigest Gen.GenCodec.
 Open Scope Z_scope.
 
@@ -538,7 +538,54 @@ Definition pmf_obs_ok (s : spec) (sp : list Q) (obs : list Z) : bool :=
   end.
 
 (* memory of the last rank / cdf answers, to check cdf = ranks ++ [1] and pmf = differences of cdf *)
-Record pmem := mkP { p_rank : option (Z * list Z * list Z); p_cdf : option (Z * list Z * list Z) }.
+Record pmem := mkP { p_rank : option (Z * list Z * list Z); p_cdf : option (Z * list Z * list Z);
+                     p_views : list (option view) }.
+(* the centroid list a slot is known to hold after its next compression (from the last dump / peek /
+   image of the slot; forgotten when an update makes the buffer dirty) *)
+Definition vget (m : pmem) (slot : Z) : option view := nth (Z.to_nat slot) (p_views m) None.
+Definition vset (m : pmem) (slot : Z) (v : option view) : pmem :=
+  mkP (p_rank m) (p_cdf m) (set_nth (Z.to_nat slot) v (p_views m)).
+Definition forget_queries (m : pmem) : pmem := mkP None None (p_views m).
+
+Fixpoint strict_means (cs : list centroid) : bool :=
+  match cs with
+  | a :: ((b :: _) as r) => Qltb (c_mean a) (c_mean b) && strict_means r
+  | _ => true
+  end.
+
+Definition view_of_dump (D : option dump) : option view :=
+  match D with
+  | Some (mkDump _ _ (Some mn) (Some mx) ((_ :: _) as cs)) => Some (mkView mn mx cs (sumw cs))
+  | _ => None
+  end.
+
+Definition view_of_image (bs : list Z) : option view :=
+  match td_deserialize bs with
+  | Some (Ok d) => match td_buf d, td_cs d, td_min d, td_max d with
+                   | [], (_ :: _) as cs, Some mn, Some mx => Some (mkView mn mx cs (sumw cs))
+                   | _, _, _, _ => None
+                   end
+  | _ => None
+  end.
+
+(* well-formed with pairwise distinct means: the hypotheses of c10_rank_quantile_consistent *)
+Definition wf_strict (v : view) : bool :=
+  match v_cs v with
+  | [] => false
+  | c0 :: _ => strict_means (v_cs v) && qle (v_min v) (c_mean c0) && qle (c_mean (last (v_cs v) c0)) (v_max v)
+  end.
+
+Definition RQ_SLACK : Q := (1 # 10000000)%Q.
+(* | rank (quantile q) - q | <= resolution v q  (Props/C10.v: c10_rank_quantile_consistent), on the crate's floats *)
+Fixpoint rq_bound_ok (v : view) (qs : list Q) (obs : list Z) : bool :=
+  match qs, obs with
+  | q :: qr, _ :: rb :: obr =>
+      match Q_of_bits rb with
+      | Some r => Qle_bool (Qabs (r - q)) (resolution v q + RQ_SLACK)%Q && rq_bound_ok v qr obr
+      | None => false
+      end
+  | _, _ => true
+  end.
 
 Definition same_query (m : option (Z * list Z * list Z)) (slot : Z) (args : list Z) : option (list Z) :=
   match m with
@@ -580,7 +627,7 @@ Definition prop_step (st : sslots) (mem : pmem) (o : zop) (ob : list Z) : pmem *
   let is_panic := list_eqb Z.eqb ob PANIC in
   match code with
   | 3 => match sget st slot, all_some (map Q_of_bits (skipn 2 a)) with
-         | Some s, Some xs => (mkP (Some (slot, skipn 2 a, ob)) (p_cdf mem), negb is_panic && rank_obs_ok s xs ob)
+         | Some s, Some xs => (mkP (Some (slot, skipn 2 a, ob)) (p_cdf mem) (p_views mem), negb is_panic && rank_obs_ok s xs ob)
          | _, _ => (mem, true) end
   | 4 => match sget st slot, all_some (map Q_of_bits (skipn 2 a)) with
          | Some s, Some qs => if forallb in01 qs then (mem, negb is_panic && quantile_obs_ok s qs ob) else (mem, true)
@@ -588,7 +635,7 @@ Definition prop_step (st : sslots) (mem : pmem) (o : zop) (ob : list Z) : pmem *
   | 5 => match sget st slot, all_some (map Q_of_bits (skipn 2 a)) with
          | Some s, Some sp =>
              if strictly_increasing sp then
-               (mkP (p_rank mem) (Some (slot, skipn 2 a, ob)),
+               (mkP (p_rank mem) (Some (slot, skipn 2 a, ob)) (p_views mem),
                 negb is_panic && cdf_obs_ok s sp ob &&
                 match same_query (p_rank mem) slot (skipn 2 a) with Some rk => prefix_eq rk ob | None => true end)
              else (mem, true)
@@ -608,9 +655,22 @@ Definition prop_step (st : sslots) (mem : pmem) (o : zop) (ob : list Z) : pmem *
   | 7 | 8 | 9 | 10 | 17 =>
          (mem, is_panic || list_eqb Z.eqb ob (snd (spec_step st o)))
   | 18 => match sget st slot, all_some (map Q_of_bits (skipn 1 a)) with
-          | Some s, Some qs => if forallb in01 qs && negb (sp_n s =? 0) then (mem, negb is_panic && rq_pairs_ok s qs ob) else (mem, true)
+          | Some s, Some qs =>
+              if forallb in01 qs && negb (sp_n s =? 0)
+              then (mem, negb is_panic && rq_pairs_ok s qs ob &&
+                         match vget mem slot with
+                         | Some v => if wf_strict v then rq_bound_ok v qs ob else true
+                         | None => true
+                         end)
+              else (mem, true)
           | _, _ => (mem, true) end
-  | 1 | 2 | 11 | 14 | 15 | 16 => (mkP None None, true)
+  | 1 => (vset (forget_queries mem) slot None, true)
+  | 2 => (vset (forget_queries mem) slot (match ob with [] => vget mem slot | _ => view_of_dump (parse_dump ob) end), true)
+  | 11 | 16 => (vset (forget_queries mem) slot (view_of_dump (parse_dump ob)), true)
+  | 12 => (vset mem slot (view_of_dump (parse_dump ob)), true)
+  | 15 => (vset (forget_queries mem) slot (if list_eqb Z.eqb ob [1] then view_of_image (skipn 1 a) else None), true)
+  | 0 => (vset (forget_queries mem) slot None, true)
+  | 14 => (forget_queries mem, true)
   | _ => (mem, true)
   end.
 
@@ -622,7 +682,7 @@ Fixpoint prop_from (st : sslots) (mem : pmem) (ops : list zop) (obs : list (list
   | _, _ => true
   end.
 
-Definition prop_ok (c : case) : bool := prop_from (repeat None 8) (mkP None None) (c_ops c) (c_obs c).
+Definition prop_ok (c : case) : bool := prop_from (repeat None 8) (mkP None None (repeat None 8)) (c_ops c) (c_obs c).
 
 (* =====================================================================================
    [c15_ok]: property C15 on the centroid dumps (oracle 2)
